@@ -15,6 +15,7 @@ import EaselModel.Stats.WeiBinnedReal
 import EaselModel.Stats.GevReal
 import EaselModel.Stats.SxpBinnedReal
 import EaselModel.Stats.GammaReal
+import EaselModel.Stats.Format
 import EaselModel.Stats.TevdReal
 import EaselModel.Stats.ExpBinnedReal
 import EaselModel.Stats.HistExpectReal
@@ -808,5 +809,32 @@ theorem sxp_shape_likelihood_equation (n : ℝ) (ls : List ℝ) (w tau : ℝ) (h
   llSxp_hasDerivAt_tau n ls w tau ht
 
 example : (0 : ℝ) < 1 := by norm_num
+
+/-- the reparameterisation `λ = exp(w)`: whatever the optimiser returns (any status), the GEV fits hand back a positive scale (ℝ) -/
+theorem gev_fit_scale_positive (xs : Array ℝ) (cens : Option (Int × ℝ)) (st : St) (ps : Array ℝ) (h : gevFittingEngine xs cens = .res st ps) :
+    0 < ps.getD 1 0 :=
+  gevFit_scale_pos xs cens st ps h
+
+/-- **`gev_gradient` IS the gradient of `gev_func` on censored data too** (`esl_gev_FitCensored`; ℝ, samples and `φ` in the main branch, `α ≠ 0`):
+    objective `gevNll - z·log F(φ)` (`gev_censored_objective_is_neg_loglik`), and the three components the code computes are its partial
+    derivatives in `μ`, `w = log λ`, `α`. -/
+theorem gev_censored_gradient_is_derivative (xs : Array ℝ) (z : Int) (phi mu w a : ℝ) (ha : a ≠ 0) (h : ∀ x ∈ xs.toList, GevMain x mu w a)
+    (hphi : GevMain phi mu w a) :
+    ∃ g0 g1 g2 : ℝ, gevGrad xs (some (z, phi)) #[mu, w, a] = #[g0, g1, g2] ∧
+      HasDerivAt (fun m => gevNll xs.toList m w a - (z : ℝ) * gevLogF phi m w a) g0 mu ∧
+      HasDerivAt (fun v => gevNll xs.toList mu v a - (z : ℝ) * gevLogF phi mu v a) g1 w ∧
+      HasDerivAt (fun b => gevNll xs.toList mu w b - (z : ℝ) * gevLogF phi mu w b) g2 a := by
+  have hp : ∀ x ∈ xs.toList, 0 < gevU x mu w a := fun x hx => (h x hx).2
+  refine ⟨_, _, _, gevGrad_censored_eq xs z phi mu w a h hphi, ?_, ?_, ?_⟩
+  · exact ((gevNll_hasDerivAt_mu xs.toList mu w a ha hp).sub ((gevLogF_hasDerivAt_mu phi mu w a ha hphi.2).const_mul (z : ℝ))).congr_deriv (by ring)
+  · exact ((gevNll_hasDerivAt_w xs.toList mu w a ha hp).sub ((gevLogF_hasDerivAt_w phi mu w a ha hphi.2).const_mul (z : ℝ))).congr_deriv (by ring)
+  · exact ((gevNll_hasDerivAt_a xs.toList mu w a ha hp).sub ((gevLogF_hasDerivAt_a phi mu w a ha hphi.2).const_mul (z : ℝ))).congr_deriv (by ring)
+
+/-- the `"%f"` model behind the byte-exact tie of `esl_histogram_Plot`'s text (`Stats/Format.lean`) rounds the exact binary value half-even to six
+    decimals: `2⁻⁷ = 0.0078125 ↦ 0.007812` (tie, even), `3·2⁻⁷ = 0.0234375 ↦ 0.023438` (tie, odd), `2⁻¹⁰ = 0.0009765625 ↦ 0.000977`, `-2.5`;
+    NaN/∞ are not bin bounds -/
+theorem plot_number_format_rounds_half_even :
+    fmtFBits 0x3f80000000000000 = some "0.007812" ∧ fmtFBits 0x3f98000000000000 = some "0.023438" ∧ fmtFBits 0x3f50000000000000 = some "0.000977" ∧
+    fmtFBits 0xc004000000000000 = some "-2.500000" ∧ fmtFBits 0x7ff0000000000000 = none := by decide
 
 end EaselModel.Props.C11
